@@ -104,9 +104,22 @@ def random_history(rng, seed, big):
     ad = _adapter()
     env = ad.Env(cfg, seed)
     ops = []
+    churn = (not big) and rng.random() < 0.35     # producer churn: register / overfill / unregister while paused / register again
     for _ in range(rng.randint(8, 45)):
         r = rng.random()
-        if r < 0.28:
+        if churn and r < 0.75:
+            c = rng.random()
+            if c < 0.30:
+                op = ["write", rng.choice([1, 2, 3, 5, 9])]
+            elif c < 0.50:
+                op = ["reg", "push" if rng.random() < 0.8 else "pull", script() if rng.random() < 0.3 else []]
+            elif c < 0.68:
+                op = ["unreg"]
+            elif c < 0.90:
+                op = ["dowrite", "abs", rng.choice([1, 1, 2, 3])]
+            else:
+                op = ["dowrite", rng.choice(["zero", "all"])]
+        elif r < 0.28:
             op = ["write", size()]
         elif r < 0.36:
             op = ["writeseq", [size() for _ in range(rng.randint(0, 3))]]
